@@ -1,6 +1,7 @@
 mod common;
 mod c02;
 mod c03;
+mod c08;
 mod c04;
 mod c09;
 mod c10;
@@ -27,7 +28,8 @@ fn main() {
         "c14" => c14::run(&cases),
         "c15" => c15::run(&cases),
         "c18" => c18::run(&cases),
-        "c12" | "c13" | "c17" | "c08" | "ua" => ua::run(&cases),
+        "c12" | "c13" | "c17" | "ua" => ua::run(&cases),
+        "c08" => c08::run(&cases),
         "c09" => c09::run(&cases),
         "c11" => c11::run(&cases),
         "c04" => c04::run(&cases),
